@@ -59,14 +59,36 @@ def writePointerPath (p : Path) : Outcome String :=
   | .arr _ xs => writePointer xs
   | _ => .err
 
-/-- `readPointer(s)` -/
+/-- `checkPointerEscapes(s)` succeeds: every `~` is followed by `0` or `1` (RFC 6901 section 3).
+    The Go loop runs over bytes; `~`, `0`, `1` are ASCII and never occur inside a multi-byte UTF-8
+    sequence, so running over characters is the same -/
+def escapesOK : List Char → Bool
+  | [] => true
+  | '~' :: r =>
+    (match r with
+     | x :: _ => (x == '0' || x == '1') && escapesOK r
+     | [] => false)
+  | _ :: r => escapesOK r
+
+/-- the token is an array index in the sense of RFC 6901 section 4 (`0`, or digits without a
+    leading zero) that fits in an `int`: `strconv.Atoi(t)` succeeds with `number ≥ 0` and
+    `strconv.Itoa(number) == t` -/
+def indexToken? (t : String) : Option Int :=
+  match atoi? t with
+  | some i => if 0 ≤ i && toString i == t then some i else none
+  | none => none
+
+/-- `readPointer(s)` (after the repair D30: only a canonical index token is an index, every other
+    token — `01`, `+1`, `-1`, `-0` — names a member; `-` alone is the append index; a `~` that is
+    not followed by `0` or `1` is an error) -/
 def readPointer (s : String) : Outcome Path :=
   if s == "" then newPathM (.arr .raw [])
   else if !(s.startsWith "/") then .err
+  else if !(escapesOK s.toList) then .err
   else
     let toks := ((s.splitOn "/").drop 1).map ptrUnescape
     newPathM (.arr .raw (toks.map (fun t =>
-      match atoi? t with
+      match indexToken? t with
       | some i => .num (intToFloatBits i)
       | none => if t == "-" then .num (intToFloatBits (-1)) else .str t)))
 
